@@ -128,8 +128,19 @@ fn classify(sh: &Shm, status: i32, timed_out: bool) -> RunResult {
         }
         return mk(Verdict::Harness(format!("watchdog: child hung at progress {}", sh.progress)));
     }
-    if sh.expect_set != 0 {
+    if sh.expect_set == 2 {
+        // the engine declared: the process must not terminate here
+        return mk(viol(
+            sigs(&sh.exit_prop),
+            "unexpected-termination",
+            format!("the process terminated although nothing should have terminated it: wait status {:#x} (exited={}, code={}, signal={}) at progress marker {}; context: {}", status, exited, code, tsig, sh.progress, sigs(&sh.msg)),
+        ));
+    }
+    if sh.expect_set == 1 {
         if exited && code == sh.expect_exit {
+            if sh.atexit_ran != 0 {
+                return mk(viol("C15".into(), "exit-hooks-ran", format!("the conditional shutdown terminated the process with status {} but exit-time hooks were run (atexit marker present); context: {}", code, sigs(&sh.msg))));
+            }
             return mk(Verdict::Ok);
         }
         return mk(viol(
